@@ -870,6 +870,10 @@ func c11r3(c *Ctx) {
 	g := f.Graph()
 	c.VisitGraph(f)
 	addBlocks := c.P.Method("syncer", "ChainManager", "AddBlocks")
+	relayFns := c12reaches(c, c.P.Method("syncer", "Peer", "RelayV2Header"))
+	for fn := range c12reaches(c, c.P.Method("syncer", "Peer", "RelayV2BlockOutline")) {
+		relayFns[fn] = true
+	}
 	for _, tn := range []string{"RPCRelayV2Header", "RPCRelayV2BlockOutline"} {
 		cc := clauseOf(f, tn)
 		if cc == nil {
@@ -891,26 +895,60 @@ func c11r3(c *Ctx) {
 				}
 			}
 		}
-		// actions: go s.relay…(…) and cm.AddBlocks
-		for _, n := range g.Nodes {
-			if n.AST == nil || !containsNode(cc, n.AST) {
-				continue
+		// actions: relaying onwards (a go statement / call of a relay step, of a literal that relays, or of a function
+		// variable that holds such a literal) and cm.AddBlocks — wherever in the handler they sit, as far as they are
+		// reached from this clause
+		relayStep := c12relayNode(f, relayFns, nil)
+		var entries []*cfgx.Visit
+		if len(cc.Body) > 0 {
+			// the clause's first node: the node inside its first statement with the smallest position
+			var first *cfgx.Node
+			for _, n := range g.Nodes {
+				if n.AST == nil || !containsNode(cc.Body[0], n.AST) {
+					continue
+				}
+				if first == nil || n.AST.Pos() < first.AST.Pos() {
+					first = n
+				}
 			}
-			isAction := false
-			if gs, ok := n.AST.(*ast.GoStmt); ok && strings.Contains(ir.ExprString(gs.Call.Fun), "relay") {
-				isAction = true
+			if first != nil {
+				entries = append(entries, cfgx.StartAt(first, 0))
+			}
+		}
+		if len(entries) == 0 {
+			ir.Fail("the %s clause has no first node", tn)
+		}
+		isAction := func(n *cfgx.Node) bool {
+			if n.AST == nil {
+				return false
 			}
 			if _, ok := f.NodeCallsTo(n, addBlocks); ok {
-				isAction = true
+				return true
 			}
-			if !isAction {
+			return relayStep(n)
+		}
+		reachedAvoiding := func(cut []*cfgx.Edge) map[*cfgx.Node]bool {
+			isCut := map[*cfgx.Edge]bool{}
+			for _, e := range cut {
+				isCut[e] = true
+			}
+			out := map[*cfgx.Node]bool{}
+			for _, v := range f.ExploreFeasible(entries, cfgx.Walker{OnEdge: func(e *cfgx.Edge, s cfgx.State) (cfgx.State, bool) { return s, !isCut[e] }}) {
+				out[v.Node] = true
+			}
+			return out
+		}
+		all := reachedAvoiding(nil)
+		noWork, noAttach := reachedAvoiding(workOK), reachedAvoiding(attachOK)
+		for _, n := range g.Nodes {
+			if !all[n] || !isAction(n) {
 				continue
 			}
 			ob := c.Ob(f, "after-work-and-attach:"+tn, n.Pos())
 			switch {
-			case !f.OnlyVia(n, workOK):
+			case noWork[n]:
 				ob.Bad(nil, "in the %s handler the action at %s is reachable without the proof-of-work test (CmpWork against the parent state's target) having passed: work-less headers are relayed or submitted", tn, c.P.Pos(n.Pos()))
-			case !f.OnlyVia(n, attachOK):
+			case noAttach[n]:
 				ob.Bad(nil, "in the %s handler the action at %s is reachable for a block that does not attach to our tip", tn, c.P.Pos(n.Pos()))
 			default:
 				ob.OK("behind work and attach tests")
